@@ -68,6 +68,8 @@ pub struct SampleQueueSender {
     queue: Arc<SpscRing<MediaSample>>,
     notify: Arc<Notify>,
     pop_lock: Arc<parking_lot::Mutex<()>>,
+    /// Serialises producers: `SpscRing::push` is single-producer, `send(&self)` is not.
+    push_lock: parking_lot::Mutex<()>,
     closed: Arc<std::sync::atomic::AtomicBool>,
 }
 
@@ -88,6 +90,7 @@ fn sample_queue_channel(capacity: usize) -> (SampleQueueSender, SampleQueueRecei
             queue: queue.clone(),
             notify: notify.clone(),
             pop_lock: pop_lock.clone(),
+            push_lock: parking_lot::Mutex::new(()),
             closed: closed.clone(),
         },
         SampleQueueReceiver {
@@ -104,6 +107,7 @@ impl SampleQueueSender {
     /// it is mapped to a typed error by the single real caller.
     #[allow(clippy::result_unit_err)]
     pub fn send(&self, sample: MediaSample) -> Result<(), ()> {
+        let _push_guard = self.push_lock.lock();
         if self.closed.load(std::sync::atomic::Ordering::Acquire) {
             return Err(());
         }
@@ -129,6 +133,7 @@ impl SampleQueueSender {
     }
 
     pub fn try_send(&self, sample: MediaSample) -> Result<(), MediaSample> {
+        let _push_guard = self.push_lock.lock();
         if self.closed.load(std::sync::atomic::Ordering::Acquire) {
             return Err(sample);
         }
